@@ -30,6 +30,8 @@ MUTANTS = [
     {"name": "second-host-may-equal-first", "file": "src/broker/update.rs", "old": "                        **host != first_host && free_count.is_some() && free_count != Some(0)", "new": "                        free_count.is_some() && free_count != Some(0)", "expect": "C12.D3:two-hosts"},
     {"name": "auto_add_nodes-no-tagging", "file": "src/broker/update.rs", "old": "                .expect(\"add_cluster: failed to get back proxy\");\n            proxy.cluster = Some(cluster_name.clone());\n        }\n\n        let nodes = cluster.get_nodes();\n        let new_nodes", "new": "                .expect(\"add_cluster: failed to get back proxy\");\n            let _ = proxy;\n        }\n\n        let nodes = cluster.get_nodes();\n        let new_nodes", "expect": "C12.D1:tags"},
     {"name": "add_cluster-err-after-tagging", "file": "src/broker/update.rs", "old": "        self.store.clusters.insert(cluster_name, cluster_store);\n        Ok(())\n    }\n\n    // This function should preserve the order", "new": "        if self.store.clusters.len() > 1_000_000 {\n            return Err(MetaStoreError::InvalidNodeNum);\n        }\n        self.store.clusters.insert(cluster_name, cluster_store);\n        Ok(())\n    }\n\n    // This function should preserve the order", "expect": "C12.D2:refusal-atomic:add_cluster"},
+    {"name": "failover-skipped-when-already-marked", "file": "src/broker/update.rs", "old": "        self.takeover_master(&cluster_name, failed_proxy_address.clone())?;\n\n        // If enable_ordered_proxy", "new": "        if self.store.failed_proxies.contains(&failed_proxy_address) {\n            return Ok(None);\n        }\n        self.takeover_master(&cluster_name, failed_proxy_address.clone())?;\n\n        // If enable_ordered_proxy", "expect": "C12.D4:replacement-always-attempted"},
+    {"name": "link-table-skips-single-host-chunks", "file": "src/broker/update.rs", "old": "                let second_host = chunk.hosts[1].clone();\n                let linked_num = link_table", "new": "                let second_host = chunk.hosts[1].clone();\n                if first_host == second_host {\n                    continue;\n                }\n                let linked_num = link_table", "expect": "C12.D4:link-table-row"},
 ]
 
 MEMBER_TAGS = {"cluster-content", "clusters-map"}
@@ -39,6 +41,7 @@ def run(ctx):
     F = ctx.F
     ctx.rule("C12.D1", "accounting: registered records never overwritten; membership writes are followed by tag writes on every Ok path")
     ctx.rule("C12.D2", "refusal leaves no partial state; allocator expect() calls dominated by the resource checks")
+    ctx.rule("C12.D4", "a failover for a cluster member always reaches the allocation (early Ok only outside a cluster / in ordered mode); the link table gets a row for both hosts of every existing chunk")
     ctx.rule("C12.D3", "two hosts: second half chosen among other hosts; replacement choice depends on the surviving partner's host")
     eff = Effects(F, classify, classify_type)
     _records(ctx)
@@ -297,6 +300,8 @@ def _replacement(ctx):
     ctx.check(depends, "C12.D3", "replacement-ignores-partner-host", site(b), ok="the replacement choice depends on the surviving partner's host",
               bad="generate_new_free_proxy chooses the replacement from the failed proxy's own host links only; the surviving partner's host never flows into the choice, so the new proxy can land on the partner's host although another host has a free proxy")
     _partner_index(ctx)
+    _failover_attempted(ctx)
+    _link_table_rows(ctx)
 
 
 def _idx_const(b, du, e):
@@ -401,3 +406,69 @@ def _partner_index(ctx):
                   bad="the proxy found at proxy_addresses%s gets hosts[%d] as its partner's host: that is its own host, so the partner's host is not excluded and both halves of the chunk can end up on one host" % (sorted(idxs), j))
     ctx.check(seen == {0, 1}, "C12.D3", "partner-index:both-positions", site(b), ok="both chunk positions are looked up", bad="only positions %s are looked up" % sorted(seen))
 
+
+def _failover_attempted(ctx):
+    """`a failed proxy is replaced ... whenever such a host has a free healthy proxy`: replace_failed_proxy must reach the
+    allocation on every call for a cluster member - a request may end early with Ok only for a proxy that is in no cluster
+    or in ordered-proxy mode (which never replaces).  An early Ok for `already marked failed` would make a refused
+    replacement final: the retry after new capacity arrived does nothing."""
+    from ..lib import branch_conditions
+    F = ctx.F
+    b = F.one(UPD + "::replace_failed_proxy")
+    if b is None:
+        ctx.lost("C12.D4", "replace_failed_proxy", "not found")
+        return
+    ctx.analysed(b)
+    du = DefUse(b)
+    dom = cfg.dominators(b)
+    alloc = [bb for bb, t in calls_to(b, "generate_new_free_proxy")]
+    if not ctx.floor("C12.D4", "allocation call in replace_failed_proxy", len(alloc), 1):
+        return
+    ok_exits, err_exits = _exits(b)
+    bad = None
+    n = 0
+    for x in ok_exits:
+        if cfg.path_between(b, 0, x, avoid=set(alloc)) is None:
+            continue
+        n += 1
+        allowed = False
+        for d, discr, val in branch_conditions(b, x, dom):
+            pl = discr.get("mv") or discr.get("cp")
+            for df in du.defs.get(pl["l"], []) if pl else []:
+                if df[0] == "assign" and df[3]["rv"]["k"] == "discr" and b.locals[df[3]["rv"]["p"]["l"]]["ty"].startswith("std::option::Option<common::cluster::ClusterName") and val == 0:
+                    allowed = True
+            is_true = (val == 1) or (isinstance(val, tuple) and val[1] == [0])
+            if is_true and du.slice_operand(discr, deep=False).has_field("MetaStore", "enable_ordered_proxy"):
+                allowed = True
+        if not allowed:
+            bad = x
+    ctx.check(bad is None, "C12.D4", "replacement-always-attempted", site(b, bad) if bad is not None else site(b), ok="%d early Ok exits, all for a proxy outside any cluster or ordered-proxy mode" % n,
+              bad="replace_failed_proxy can return Ok for a cluster member without reaching generate_new_free_proxy (and not because of ordered-proxy mode): a replacement that was refused once is never retried although a host with a free healthy proxy exists")
+
+
+def _link_table_rows(ctx):
+    """generate_new_free_proxy looks the failed proxy's host up in the link table with expect(): the loop over the existing
+    chunks must create the rows of both hosts of every chunk unconditionally (a chunk on a single host included)"""
+    from .C02 import loop_can_skip
+    F = ctx.F
+    b = F.one(UPD + "::build_link_table")
+    if b is None:
+        ctx.lost("C12.D4", "build_link_table", "not found")
+        return
+    ctx.analysed(b)
+    loops = {}
+    for t_, h in cfg.natural_loops(b):
+        loops.setdefault(h, set()).update(cfg.loop_blocks(b, t_, h))
+    hosts_blocks = set()
+    for bb, i, st in b.assigns():
+        pl = st["rv"].get("p") or (st["rv"].get("a") or {}).get("cp") or (st["rv"].get("a") or {}).get("mv") if isinstance(st["rv"].get("a", {}), dict) else None
+        if pl and any(isinstance(e, dict) and e.get("name") == "hosts" for e in pl["p"]):
+            hosts_blocks.add(bb)
+    inner = [(h, bl) for h, bl in loops.items() if hosts_blocks & bl]
+    if not ctx.floor("C12.D4", "loop over the existing chunks in build_link_table", len(inner), 1):
+        return
+    h, bl = min(inner, key=lambda x: len(x[1]))
+    sinks = [bb for bb, t in b.calls() if bb in bl and (callee_of(t) or "").rsplit("::", 1)[-1] in ("or_insert_with", "or_insert", "or_default", "insert")]
+    p_ = cfg.path_between(b, h, h, avoid=set(sinks) - {h}, succs={**b.succs(), **{x: [y for y in b.succs()[x] if y in bl] for x in bl}}) if sinks else [h]
+    ctx.check(bool(sinks) and p_ is None, "C12.D4", "link-table-row-for-every-used-host", site(b, h), ok="every existing chunk adds the rows of its two hosts",
+              bad="an iteration over the existing chunks can skip the row creation: a host that is in use can be missing from the link table and generate_new_free_proxy's expect() panics in the middle of a failover (after the takeover changed the store)")
